@@ -3,7 +3,8 @@
    round_general / auction_general (any auction accepted by seq_calls), card_round (one card, any seat on turn,
    lead prompt or not), opening_lead / dummy_shown (the first two cards, Dummy's hand shown), play_general / play_all
    (the 52 cards along seq_cards, the four observers kept in step by Proofs/Play.v's obs_sim0), board_deal /
-   board_passed / board_played / board_general (one board), loop_general, startup_general, the two theorems.
+   board_passed / board_played / board_general (one board; the record logged is Model/Conform.v's model_record),
+   loop_general (the list of logged records), startup_general, conforming_session_recs, the two theorems.
    Standard library only; closed under the global context. *)
 From BE Require Import Model.Session Model.Conform Proofs.Kahn Proofs.Session Proofs.Wire Proofs.SessionPassOut.
 From BE Require Proofs.Play.
@@ -594,10 +595,30 @@ Proof.
   apply HF.
 Qed.
 
+(* ---------- what is logged is the record of Model/Conform.v ---------- *)
+Lemma scores_of_zero k : scores_of k 0 = (0%Z, 0%Z).
+Proof. unfold scores_of. destruct (cdeclarer k) as [d|]; [destruct (side_of d)|]; reflexivity. Qed.
+Lemma model_record_passed names b sc s k :
+  seq_calls 400 (Auction.init (b_dealer b) (b_vul b)) (fun p => sc_calls (sc p)) = Some s ->
+  contract_of s = Some k -> is_passed_out k = true ->
+  model_record names b sc = Some (mkLog names (b_id b) (b_dealer b) (b_deal b) (hist s) k None None "IMP" 0%Z 0%Z (b_dda b)).
+Proof. intros H1 H2 H3. unfold model_record. rewrite H1, H2, H3. reflexivity. Qed.
+Lemma model_record_played names b sc s k hs0 hs score sns sew :
+  seq_calls 400 (Auction.init (b_dealer b) (b_vul b)) (fun p => sc_calls (sc p)) = Some s ->
+  contract_of s = Some k -> is_passed_out k = false -> init_hands k (b_deal b) = Some hs0 ->
+  seq_cards 52 hs0 (fun p => sc_cards (sc p)) = Some hs ->
+  calc_score k (Z.of_nat (taken (hbase hs) (side_of (declarer (hbase hs))))) = Some score ->
+  scores_of k score = (sns, sew) ->
+  model_record names b sc =
+    Some (mkLog names (b_id b) (b_dealer b) (b_deal b) (hist s) k (Some (tricks (hbase hs)))
+            (Some (Z.of_nat (taken (hbase hs) (side_of (declarer (hbase hs)))))) "IMP" sns sew (b_dda b)).
+Proof. intros H1 H2 H3 H4 H5 H6 H7. unfold model_record. rewrite H1, H2, H3, H4, H5. cbv zeta. rewrite H6, H7. reflexivity. Qed.
+
 (* ---------- after the auction: a passed-out board ---------- *)
 Lemma board_passed : forall bd rest k names ft fc sc s0 s1 s2 s3 h0 h1 h2 h3 f sfin kk calls L T0 T1 T2 T3 T4 T5 T6 T7 b F,
+  seq_calls 400 (Auction.init (b_dealer bd) (b_vul bd)) (fun p => sc_calls (sc p)) = Some sfin ->
   active sfin = None -> contract_of sfin = Some kk -> is_passed_out kk = true ->
-  (forall r T0' T1' T2' T3' T4' T5' T6' T7',
+  (forall r T0' T1' T2' T3' T4' T5' T6' T7', model_record names bd sc = Some r ->
      reach (QS (m_after names rest (S k))
                (t_after 0 ft North) (t_after 1 ft East) (t_after 2 ft South) (t_after 3 ft West)
                (c_next 0 North fc s0) (c_next 1 East fc s1) (c_next 2 South fc s2) (c_next 3 West fc s3)
@@ -608,17 +629,17 @@ Lemma board_passed : forall bd rest k names ft fc sc s0 s1 s2 s3 h0 h1 h2 h3 f s
               (KCb 2 South fc (sc South) s2 h2) (KCb 3 West fc (sc West) s3 h3)
               L T0 T1 T2 T3 T4 T5 T6 T7 b) F.
 Proof.
-  intros bd rest k names ft fc sc s0 s1 s2 s3 h0 h1 h2 h3 f sfin kk calls L T0 T1 T2 T3 T4 T5 T6 T7 b F Hact Hk Hpo HF.
+  intros bd rest k names ft fc sc s0 s1 s2 s3 h0 h1 h2 h3 f sfin kk calls L T0 T1 T2 T3 T4 T5 T6 T7 b F Hsc Hact Hk Hpo HF.
   unfold BidSt, QS in *.
   rewrite (bidding_end 4 CN f _ _ Hact).
   rewrite !(c_bidding_end 4 _ _ f _ _ _ Hact).
   unfold KMb, KCb, KMfin. rewrite Hk. cbv iota. rewrite Hpo. cbv iota.
-  destruct (scores_of kk 0) as [sns sew].
+  rewrite scores_of_zero.
   unfold put_null_pair, all_seats, logp; cbn [fold_right]. rewrite Hpo. cbv iota.
   do 9 go 0.
   unfold KTb.
   wrap_t 0. wrap_t 1. wrap_t 2. wrap_t 3.
-  apply HF.
+  apply HF. exact (model_record_passed names bd sc sfin kk Hsc Hk Hpo).
 Qed.
 
 Ltac pre_t i :=
@@ -628,10 +649,11 @@ Ltac pre_t i :=
 
 (* ---------- after the auction: a played board ---------- *)
 Lemma board_played : forall bd rest k names ft fc sc s0 s1 s2 s3 h0 h1 h2 h3 f sfin kk hs0 hsfin calls L T0 T1 T2 T3 T4 T5 T6 T7 b F,
+  seq_calls 400 (Auction.init (b_dealer bd) (b_vul bd)) (fun p => sc_calls (sc p)) = Some sfin ->
   active sfin = None -> contract_of sfin = Some kk -> is_passed_out kk = false ->
   init_hands kk (b_deal bd) = Some hs0 -> seq_cards 52 hs0 (fun p => sc_cards (sc p)) = Some hsfin ->
   same_cards h0 (b_deal bd North) -> same_cards h1 (b_deal bd East) -> same_cards h2 (b_deal bd South) -> same_cards h3 (b_deal bd West) ->
-  (forall r T0' T1' T2' T3' T4' T5' T6' T7',
+  (forall r T0' T1' T2' T3' T4' T5' T6' T7', model_record names bd sc = Some r ->
      reach (QS (m_after names rest (S k))
                (t_after 0 ft North) (t_after 1 ft East) (t_after 2 ft South) (t_after 3 ft West)
                (c_next 0 North fc s0) (c_next 1 East fc s1) (c_next 2 South fc s2) (c_next 3 West fc s3)
@@ -643,7 +665,7 @@ Lemma board_played : forall bd rest k names ft fc sc s0 s1 s2 s3 h0 h1 h2 h3 f s
               L T0 T1 T2 T3 T4 T5 T6 T7 b) F.
 Proof.
   intros bd rest k names ft fc sc s0 s1 s2 s3 h0 h1 h2 h3 f sfin kk hs0 hsfin calls L T0 T1 T2 T3 T4 T5 T6 T7 b F
-    Hact Hk Hpo Hih Hsq Hs0 Hs1 Hs2 Hs3 HF.
+    Hsc Hact Hk Hpo Hih Hsq Hs0 Hs1 Hs2 Hs3 HF.
   destruct (Proofs.Play.init_hands_shape kk (b_deal bd) hs0 Hih) as (b0 & Hb0 & ->).
   destruct (Proofs.Play.opening kk b0 Hb0) as (lv & st & d & Hfb & Hcd & _ & Hdc & Hdm & Hle & Hpa & _).
   destruct kk as [fb x xx v cd]. cbn [final_bid cdeclarer] in Hfb, Hcd. subst fb cd.
@@ -668,9 +690,9 @@ Proof.
   unfold PlaySt, QS. cbn [playing t_playing c_playing]. cbv zeta.
   destruct (calc_score_some lv st x xx v d (taken (hbase hsfin) (side_of (declarer (hbase hsfin))))) as (scv & Hscv).
   { change (52 / 4) with 13 in Ftk. unfold taken. destruct (side_of _); lia. }
-  rewrite Hscv. cbv iota. unfold KMfin. destruct (scores_of _ scv) as [sns sew]. unfold logp.
+  rewrite Hscv. cbv iota. unfold KMfin. destruct (scores_of _ scv) as [sns sew] eqn:Hso. unfold logp.
   go 0.
-  apply HF.
+  apply HF. exact (model_record_played names bd sc sfin _ _ hsfin scv sns sew Hsc Hk Hpo Hih Hsq Hscv Hso).
 Qed.
 
 Lemma conform_board_inv bd sc : conform_board bd sc = true ->
@@ -696,7 +718,7 @@ Lemma board_general : forall bd rest k names ft fc sc s0 s1 s2 s3 K0 K1 K2 K3 L 
   K1 START = c_boards 4 1 East (S fc) START (sc East :: s1) ->
   K2 START = c_boards 4 2 South (S fc) START (sc South :: s2) ->
   K3 START = c_boards 4 3 West (S fc) START (sc West :: s3) ->
-  (forall r T0' T1' T2' T3' T4' T5' T6' T7',
+  (forall r T0' T1' T2' T3' T4' T5' T6' T7', model_record names bd sc = Some r ->
      reach (QS (m_after names rest (S k))
                (t_after 0 ft North) (t_after 1 ft East) (t_after 2 ft South) (t_after 3 ft West)
                (c_next 0 North fc s0) (c_next 1 East fc s1) (c_next 2 South fc s2) (c_next 3 West fc s3)
@@ -717,19 +739,13 @@ Proof.
   apply (auction_general 400 _ _ sfin Hsc).
   clear T0 T1 T2 T3 T4 T5 T6 T7. intros f' calls' T0 T1 T2 T3 T4 T5 T6 T7 Hact.
   destruct Hcase as [Hpo|(Hpo & hs0 & hsfin & Hih & Hsq)].
-  - apply (board_passed bd rest k names ft fc sc s0 s1 s2 s3 h0 h1 h2 h3 f' sfin kk calls' L T0 T1 T2 T3 T4 T5 T6 T7 (S (S b)) F Hact Hk Hpo HF).
+  - apply (board_passed bd rest k names ft fc sc s0 s1 s2 s3 h0 h1 h2 h3 f' sfin kk calls' L T0 T1 T2 T3 T4 T5 T6 T7 (S (S b)) F Hsc Hact Hk Hpo HF).
   - apply (board_played bd rest k names ft fc sc s0 s1 s2 s3 h0 h1 h2 h3 f' sfin kk hs0 hsfin calls' L T0 T1 T2 T3 T4 T5 T6 T7 (S (S b)) F
-             Hact Hk Hpo Hih Hsq Hs0 Hs1 Hs2 Hs3 HF).
+             Hsc Hact Hk Hpo Hih Hsq Hs0 Hs1 Hs2 Hs3 HF).
 Qed.
 
-(* ===================================================================== conformance board by board; any non-empty list of boards *)
-(* ---------- conformance, board by board ---------- *)
-Fixpoint CF (rest : list board) (scr : seat -> list cscript) : Prop :=
-  match rest with
-  | [] => True
-  | bd :: rest' => exists sc scr', (forall p, scr p = sc p :: scr' p) /\ conform_board bd sc = true /\ CF rest' scr'
-  end.
-
+(* ===================================================================== any non-empty list of boards, with the list of logged records *)
+(* ---------- scripts and boards by index ---------- *)
 Lemma skipn_nth (l : list cscript) : forall a, S a <= length l -> skipn a l = nth_script l a :: skipn (S a) l.
 Proof.
   unfold nth_script. induction l as [|x l IHl]; intros a Hlen; [cbn in Hlen; lia|].
@@ -738,60 +754,53 @@ Qed.
 Lemma forallb_seq_cons {A} (f : nat * A -> bool) a x l :
   forallb f (combine (seq a (length (x :: l))) (x :: l)) = f (a, x) && forallb f (combine (seq (S a) (length l)) l).
 Proof. reflexivity. Qed.
-Opaque conform_board.
-Lemma conform_from : forall rest a scr,
-  (forall p, length (scr p) = a + length rest) ->
-  forallb (fun '(j, b) => conform_board b (fun p => nth_script (scr p) j)) (combine (seq a (length rest)) rest) = true ->
-  CF rest (fun p => skipn a (scr p)).
-Proof.
-  induction rest as [|bd rest IH]; intros a scr Hlen H; [exact I|].
-  rewrite forallb_seq_cons in H. apply andb_true_iff in H. destruct H as [H1 H2].
-  exists (fun p => nth_script (scr p) a), (fun p => skipn (S a) (scr p)).
-  split; [|split].
-  - intros p. apply skipn_nth. rewrite (Hlen p). cbn [length]. lia.
-  - exact H1.
-  - apply IH; [|exact H2]. intros p. rewrite (Hlen p). cbn [length]. lia.
-Qed.
-Transparent conform_board.
+Lemma map_seq_cons {A B} (f : nat * A -> B) a x l :
+  map f (combine (seq a (length (x :: l))) (x :: l)) = f (a, x) :: map f (combine (seq (S a) (length l)) l).
+Proof. reflexivity. Qed.
 
-Lemma conforming_CF boards scripts : conforming boards scripts = true ->
-  CF boards scripts /\ forall p, length (scripts p) = length boards.
-Proof.
-  unfold conforming. intros H. apply andb_true_iff in H. destruct H as [H1 H2].
-  assert (L : forall p, length (scripts p) = length boards).
-  { rewrite forallb_forall in H1. intros p. apply Nat.eqb_eq. apply H1. destruct p; cbn; tauto. }
-  split; [|exact L].
-  apply (conform_from boards 0 scripts); [intros p; rewrite L; reflexivity|exact H2].
-Qed.
+(* what is logged for the boards from index a on *)
+Definition recs_from (names : seat -> string) (scr : seat -> list cscript) (a : nat) (rest : list board) : list (option logrec) :=
+  map (fun '(j, b) => model_record names b (fun p => nth_script (scr p) j)) (combine (seq a (length rest)) rest).
+Lemma recs_from_length names scr a rest : length (recs_from names scr a rest) = length rest.
+Proof. unfold recs_from. rewrite map_length, combine_length, seq_length. apply Nat.min_id. Qed.
 
 (* ---------- any non-empty list of boards ---------- *)
-Lemma loop_general : forall rest, rest <> [] -> forall scr k names K0 K1 K2 K3 L T0 T1 T2 T3 T4 T5 T6 T7 b F,
-  CF rest scr ->
-  K0 START = c_boards 4 0 North (S (length rest)) START (scr North) ->
-  K1 START = c_boards 4 1 East (S (length rest)) START (scr East) ->
-  K2 START = c_boards 4 2 South (S (length rest)) START (scr South) ->
-  K3 START = c_boards 4 3 West (S (length rest)) START (scr West) ->
-  (forall recs T0' T1' T2' T3' T4' T5' T6' T7' b', length recs = length rest ->
+Opaque conform_board model_record.
+Lemma loop_general : forall rest, rest <> [] -> forall a scr k names K0 K1 K2 K3 L T0 T1 T2 T3 T4 T5 T6 T7 b F,
+  (forall p, length (scr p) = a + length rest) ->
+  forallb (fun '(j, b) => conform_board b (fun p => nth_script (scr p) j)) (combine (seq a (length rest)) rest) = true ->
+  K0 START = c_boards 4 0 North (S (length rest)) START (skipn a (scr North)) ->
+  K1 START = c_boards 4 1 East (S (length rest)) START (skipn a (scr East)) ->
+  K2 START = c_boards 4 2 South (S (length rest)) START (skipn a (scr South)) ->
+  K3 START = c_boards 4 3 West (S (length rest)) START (skipn a (scr West)) ->
+  (forall recs T0' T1' T2' T3' T4' T5' T6' T7' b', map Some recs = recs_from names scr a rest ->
      reach (QS Ret Ret Ret Ret Ret Ret Ret Ret Ret (L ++ map recmsg recs ++ [MLog LClose]) T0' T1' T2' T3' T4' T5' T6' T7' b') F) ->
   reach (QS (boards_loop 4 CN names rest k)
             (t_boards 4 0 (S (length rest)) North) (t_boards 4 1 (S (length rest)) East)
             (t_boards 4 2 (S (length rest)) South) (t_boards 4 3 (S (length rest)) West)
             (crecv 0 K0) (crecv 1 K1) (crecv 2 K2) (crecv 3 K3) L T0 T1 T2 T3 T4 T5 T6 T7 b) F.
 Proof.
-  induction rest as [|bd rest IH]; intros Hne scr k names K0 K1 K2 K3 L T0 T1 T2 T3 T4 T5 T6 T7 b F HCF HK0 HK1 HK2 HK3 HF; [congruence|].
-  destruct HCF as (sc & scr' & Hscr & Hconf & HCF').
-  rewrite Hscr in HK0, HK1, HK2, HK3.
-  eapply (board_general bd rest k names (length (bd :: rest)) (length (bd :: rest)) sc
-            (scr' North) (scr' East) (scr' South) (scr' West) K0 K1 K2 K3 L T0 T1 T2 T3 T4 T5 T6 T7 b F Hconf HK0 HK1 HK2 HK3).
-  clear T0 T1 T2 T3 T4 T5 T6 T7. intros r T0 T1 T2 T3 T4 T5 T6 T7.
+  induction rest as [|bd rest IH]; intros Hne a scr k names K0 K1 K2 K3 L T0 T1 T2 T3 T4 T5 T6 T7 b F Hlen HC HK0 HK1 HK2 HK3 HF; [congruence|].
+  rewrite forallb_seq_cons in HC. apply andb_true_iff in HC. destruct HC as [HC1 HC2].
+  assert (Hsk : forall p, skipn a (scr p) = nth_script (scr p) a :: skipn (S a) (scr p)).
+  { intros p. apply skipn_nth. rewrite (Hlen p). cbn [length]. lia. }
+  rewrite Hsk in HK0, HK1, HK2, HK3.
+  eapply (board_general bd rest k names (length (bd :: rest)) (length (bd :: rest)) (fun p => nth_script (scr p) a)
+            (skipn (S a) (scr North)) (skipn (S a) (scr East)) (skipn (S a) (scr South)) (skipn (S a) (scr West))
+            K0 K1 K2 K3 L T0 T1 T2 T3 T4 T5 T6 T7 b F HC1 HK0 HK1 HK2 HK3).
+  clear T0 T1 T2 T3 T4 T5 T6 T7. intros r T0 T1 T2 T3 T4 T5 T6 T7 Hr.
   destruct rest as [|bd' rest'].
   - apply session_end. clear T0 T1 T2 T3 T4 T5 T6 T7. intros T0 T1 T2 T3 T4 T5 T6 T7.
-    rewrite <- app_assoc. apply (HF [r]). reflexivity.
+    rewrite <- app_assoc. apply (HF [r]).
+    unfold recs_from. rewrite map_seq_cons. cbn [map]. rewrite Hr. reflexivity.
   - apply next_board.
-    eapply (IH ltac:(discriminate) scr' (S k) names); [exact HCF'|reflexivity|reflexivity|reflexivity|reflexivity|].
-    intros recs T0' T1' T2' T3' T4' T5' T6' T7' b' Hlen.
-    rewrite <- app_assoc. apply (HF (r :: recs)). cbn [length]. rewrite Hlen. reflexivity.
+    eapply (IH ltac:(discriminate) (S a) scr (S k) names); [|exact HC2|reflexivity|reflexivity|reflexivity|reflexivity|].
+    + intros p. rewrite (Hlen p). cbn [length]. lia.
+    + intros recs T0' T1' T2' T3' T4' T5' T6' T7' b' Hrecs.
+      rewrite <- app_assoc. apply (HF (r :: recs)).
+      unfold recs_from in *. rewrite map_seq_cons. cbn [map]. rewrite Hr, Hrecs. reflexivity.
 Qed.
+Transparent conform_board model_record.
 
 (* ===================================================================== start of the session; the theorems *)
 (* ---------- admission, seating barrier and team line, for any scripts ---------- *)
@@ -840,6 +849,38 @@ Proof.
 Qed.
 
 (* ---------- the theorems ---------- *)
+Lemma conforming_lengths boards scripts : conforming boards scripts = true ->
+  (forall p, length (scripts p) = length boards) /\
+  forallb (fun '(j, b) => conform_board b (fun p => nth_script (scripts p) j)) (combine (seq 0 (length boards)) boards) = true.
+Proof.
+  unfold conforming. intros H. apply andb_true_iff in H. destruct H as [H1 H2]. split; [|exact H2].
+  rewrite forallb_forall in H1. intros p. apply Nat.eqb_eq. apply H1. destruct p; cbn; tauto.
+Qed.
+
+(* completion, with the list of logged records: board j's record is model_record of board j and the j-th scripts *)
+Lemma conforming_session_recs : forall boards ns ew scripts,
+  boards <> [] -> no_quote ns -> no_quote ew -> conforming boards scripts = true ->
+  exists l f, srun l (init_state (conf_session boards ns ew scripts)) = Some f /\
+              Kahn.all_doneb msg f = true /\
+              exists recs, log_events 4 f = LOpen :: map LRec recs ++ [LClose] /\
+                           map Some recs = recs_from (NM ns ew) scripts 0 boards.
+Proof.
+  intros boards ns ew scripts Hne Hns Hew Hconf.
+  destruct (conforming_lengths boards scripts Hconf) as [Hlen HC].
+  change (reach (init_state (conf_session boards ns ew scripts))
+            (fun f => Kahn.all_doneb msg f = true /\
+                      exists recs, log_events 4 f = LOpen :: map LRec recs ++ [LClose] /\
+                                   map Some recs = recs_from (NM ns ew) scripts 0 boards)).
+  apply startup_general; [exact Hns | exact Hew | exact Hlen |]. intros T0 T1 T2 T3 T4 T5 T6 T7.
+  apply (loop_general boards Hne 0 scripts); [exact Hlen|exact HC|reflexivity|reflexivity|reflexivity|reflexivity|].
+  intros recs T0' T1' T2' T3' T4' T5' T6' T7' b' Hl.
+  apply reach_done. split; [reflexivity|].
+  exists recs. split; [|exact Hl].
+  unfold log_events. change (chan (QS Ret Ret Ret Ret Ret Ret Ret Ret Ret ([MLog LOpen] ++ map recmsg recs ++ [MLog LClose]) T0' T1' T2' T3' T4' T5' T6' T7' b') (ch_log 4))
+    with ([MLog LOpen] ++ map recmsg recs ++ [MLog LClose]).
+  apply log_flat.
+Qed.
+
 Theorem conforming_session_completes : forall boards ns ew scripts,
   boards <> [] -> no_quote ns -> no_quote ew -> conforming boards scripts = true ->
   exists l f, srun l (init_state (conf_session boards ns ew scripts)) = Some f /\
@@ -847,18 +888,9 @@ Theorem conforming_session_completes : forall boards ns ew scripts,
               exists recs, log_events 4 f = LOpen :: map LRec recs ++ [LClose] /\ length recs = length boards.
 Proof.
   intros boards ns ew scripts Hne Hns Hew Hconf.
-  destruct (conforming_CF boards scripts Hconf) as [HCF Hlen].
-  change (reach (init_state (conf_session boards ns ew scripts))
-            (fun f => Kahn.all_doneb msg f = true /\
-                      exists recs, log_events 4 f = LOpen :: map LRec recs ++ [LClose] /\ length recs = length boards)).
-  apply startup_general; [exact Hns | exact Hew | exact Hlen |]. intros T0 T1 T2 T3 T4 T5 T6 T7.
-  apply (loop_general boards Hne scripts); [exact HCF|reflexivity|reflexivity|reflexivity|reflexivity|].
-  intros recs T0' T1' T2' T3' T4' T5' T6' T7' b' Hl.
-  apply reach_done. split; [reflexivity|].
-  exists recs. split; [|exact Hl].
-  unfold log_events. change (chan (QS Ret Ret Ret Ret Ret Ret Ret Ret Ret ([MLog LOpen] ++ map recmsg recs ++ [MLog LClose]) T0' T1' T2' T3' T4' T5' T6' T7' b') (ch_log 4))
-    with ([MLog LOpen] ++ map recmsg recs ++ [MLog LClose]).
-  apply log_flat.
+  destruct (conforming_session_recs boards ns ew scripts Hne Hns Hew Hconf) as (l & f & Hr & Hd & recs & Hlog & Hrecs).
+  exists l, f. split; [exact Hr|]. split; [exact Hd|]. exists recs. split; [exact Hlog|].
+  apply (f_equal (@length _)) in Hrecs. rewrite map_length, recs_from_length in Hrecs. exact Hrecs.
 Qed.
 
 Theorem conforming_session_every_schedule : forall boards ns ew scripts,
